@@ -666,7 +666,7 @@ func c01RunStreams(ctx *Ctx, res *Result) {
 }
 
 func runC01(ctx *Ctx) *Result {
-	res := &Result{Rule: "whole runs: one per generated tree x option subset (valid, hostile and malformed stream of the tree generator, plus 3 sizes of every scaling-probe family); distinct = distinct by (content of all non-fixture entries, argv, cwd); every tree carries at least one generated feature, so all distinct runs are non-trivial. " +
+	res := &Result{Rule: "whole runs: one per generated tree x option subset (valid, hostile and malformed stream of the tree generator, plus 3 sizes of every scaling-probe family); plus the dictionary streams (dict:*) and the entry-kind stream (kinds: one run per (strace-observed path pattern, entry kind)); distinct = distinct by (content of all non-fixture entries, argv, cwd); every tree carries at least one generated feature, so all distinct runs are non-trivial. " +
 		"unit: all sequences of <=5 (thorough 6) directive lines over a 9-symbol alphabet (with and without a pkgsrc tree), all of length 6 (7) over its 7 core symbols, random longer ones over 37 symbols, and all SeparatorWriter event sequences of <=6 events over 8 events are compared with the extracted model"}
 	defer c01ScratchCleanup()
 	t0 := time.Now()
@@ -693,6 +693,9 @@ func runC01(ctx *Ctx) *Result {
 	tD := time.Now()
 	c01RunDict(ctx, res)
 	res.Count("wall_ms.dict", int(time.Since(tD).Milliseconds()))
+	tK := time.Now()
+	c01RunKinds(ctx, res)
+	res.Count("wall_ms.kinds", int(time.Since(tK).Milliseconds()))
 	c01RunStreams(ctx, res)
 	wg.Wait()
 	res.Count("wall_ms.whole-run", int(time.Since(t1).Milliseconds()))
@@ -710,6 +713,14 @@ func replayC01(ctx *Ctx, rep map[string]any) *Result {
 	switch rep["kind"] {
 	case "tree":
 		c := c01DecodeCase(rep)
+		if ko, _ := rep["key_override"].(string); ko == "C01/hang/blocked-on-fifo" {
+			res.Evaluations = 1
+			r := c01RunCaseOnce(ctx, c, 10*time.Second, c01CPUSeconds(c.Spec.Size()))
+			if r.TimedOut && r.Signal == "watchdog" && r.CPU < 500*time.Millisecond {
+				res.AddViolation(Violation{Key: ko, What: "blocked on a FIFO (replay)", FoundInput: true, Replay: rep})
+			}
+			return res
+		}
 		r := c01RunCase(ctx, c, c01Timeout(ctx, c))
 		v := c01Judge(r, c.Spec.Size())
 		res.Evaluations = 1
